@@ -22,8 +22,9 @@ position or count, so that harmless rewrites keep translating:
     absent -> `textEscape := none`, which is the code before the repair);
   * from `executeMethod`: the `'dbus_'` attribute prefix and the exception it raises when nothing
     implements the member;
-  * from `_set_method_flags`: `len(args) >= <n> and args[-1] == '<kw>'` (the rule that decides
-    whether a method "asks for" the caller).
+  * from `_set_method_flags`: `args = inspect.getfullargspec(m)[0]` (named positional parameters)
+    and `len(args) >= <n> and args[-1] == '<kw>'` (the rule that decides whether a method "asks
+    for" the caller).
 
 Anything the model could not interpret (an unknown slot expression, another caller rule, a
 missing role) raises TranslatorError: the table obligation of C10 is then broken.
@@ -338,7 +339,21 @@ def unbound_exception(fn):
 
 
 def caller_rule(fn):
-    """`len(args) >= N and args[-1] == '<kw>'` -> (kw, N)."""
+    """`len(args) >= N and args[-1] == '<kw>'` -> (kw, N), where `args` must be
+    `inspect.getfullargspec(<method>)[0]`: the NAMED POSITIONAL parameters (self included; no
+    *args / keyword-only / **kwargs names) - that is what the model's `Func.params` holds."""
+    src_ok = False
+    for n in ast.walk(fn):
+        if isinstance(n, ast.Assign) and len(n.targets) == 1 and isinstance(n.targets[0], ast.Name) \
+                and n.targets[0].id == 'args' and isinstance(n.value, ast.Subscript):
+            v = n.value
+            idx = v.slice
+            if isinstance(v.value, ast.Call) and ast.unparse(v.value.func) == 'inspect.getfullargspec' \
+                    and isinstance(idx, ast.Constant) and idx.value == 0:
+                src_ok = True
+    if not src_ok:
+        raise TranslatorError('_set_method_flags no longer takes `args` from inspect.getfullargspec(...)[0] '
+                              '(the named positional parameters)')
     for n in ast.walk(fn):
         if isinstance(n, ast.BoolOp) and isinstance(n.op, ast.And) and len(n.values) == 2:
             a, b = n.values
